@@ -14,6 +14,10 @@
 //!       .build(backend) for the three backends, then the baseline advanced with apply_action), with that
 //!       baseline as a Gallina term; and the pending plan the way `sql` should show it (what `diff` plans,
 //!       prefixed, rendered against the prefixed baseline).
+//!   hcli literal SRC_PROJECT DST_PROJECT
+//!       C14 at the CLI level: writes the literally renamed project (every table name, foreign-key target and inline
+//!       foreign_key of the models and of the stored migrations prefixed by hand with the configured prefix; the
+//!       configuration's prefix emptied) as JSON files; ids, comments, versions and timestamps are kept.
 use std::path::Path;
 
 use serde_json::{Value, json};
@@ -228,14 +232,81 @@ fn cmd_render(args: &[String]) {
     println!("{}", json!({"log": log, "sql": sql}));
 }
 
+fn walk_files(dir: &Path, recursive: bool, out: &mut Vec<std::path::PathBuf>) {
+    if let Ok(rd) = std::fs::read_dir(dir) {
+        for e in rd.flatten() {
+            let p = e.path();
+            if p.is_dir() {
+                if recursive {
+                    walk_files(&p, recursive, out);
+                }
+            } else if matches!(p.extension().and_then(|s| s.to_str()), Some("json") | Some("yaml") | Some("yml")) {
+                out.push(p);
+            }
+        }
+    }
+}
+
+fn cmd_literal(args: &[String]) {
+    use vcommon::gener::{literal_action, literal_table};
+    let src = std::fs::canonicalize(&args[0]).expect("source project");
+    let dst = std::path::PathBuf::from(&args[1]);
+    let config = match vespertide_loader::load_config_from_path(src.join("vespertide.json")) {
+        Ok(c) => c,
+        Err(e) => {
+            println!("{}", json!({"ok": false, "error": format!("config: {}", e)}));
+            return;
+        }
+    };
+    let prefix = config.prefix().to_string();
+    let mut cfg = serde_json::to_value(&config).unwrap();
+    cfg["prefix"] = json!("");
+    cfg["modelsDir"] = json!("models");
+    cfg["migrationsDir"] = json!("migrations");
+    let _ = std::fs::remove_dir_all(&dst);
+    std::fs::create_dir_all(dst.join("models")).unwrap();
+    std::fs::create_dir_all(dst.join("migrations")).unwrap();
+    std::fs::write(dst.join("vespertide.json"), serde_json::to_string_pretty(&cfg).unwrap()).unwrap();
+    let mut files = Vec::new();
+    walk_files(&src.join(config.models_dir()), true, &mut files);
+    for (i, f) in files.iter().enumerate() {
+        match parse_table(f.to_str().unwrap()) {
+            Ok(t) => {
+                let lt = literal_table(&prefix, &t);
+                std::fs::write(dst.join("models").join(format!("m{:03}.json", i)), serde_json::to_string_pretty(&lt).unwrap()).unwrap();
+            }
+            Err(e) => {
+                println!("{}", json!({"ok": false, "error": format!("model {}: {}", f.display(), e)}));
+                return;
+            }
+        }
+    }
+    let mut files = Vec::new();
+    walk_files(&src.join(config.migrations_dir()), false, &mut files);
+    for (i, f) in files.iter().enumerate() {
+        match parse_plan(f.to_str().unwrap()) {
+            Ok(mut pl) => {
+                pl.actions = pl.actions.iter().map(|a| literal_action(&prefix, a)).collect();
+                std::fs::write(dst.join("migrations").join(format!("g{:03}.json", i)), serde_json::to_string_pretty(&pl).unwrap()).unwrap();
+            }
+            Err(e) => {
+                println!("{}", json!({"ok": false, "error": format!("migration {}: {}", f.display(), e)}));
+                return;
+            }
+        }
+    }
+    println!("{}", json!({"ok": true, "prefix": prefix}));
+}
+
 fn main() {
     let args: Vec<String> = std::env::args().skip(1).collect();
     match args.first().map(|s| s.as_str()) {
         Some("gen") => cmd_gen(&args[1..]),
         Some("parse") => cmd_parse(&args[1..]),
         Some("render") => cmd_render(&args[1..]),
+        Some("literal") => cmd_literal(&args[1..]),
         _ => {
-            eprintln!("usage: hcli gen|parse|render ...");
+            eprintln!("usage: hcli gen|parse|render|literal ...");
             std::process::exit(2);
         }
     }
